@@ -37,7 +37,7 @@ Definition valid_mframe (W H : Z) (fr : mframe) : Prop :=
   Z.of_nat (length (mf_data fr)) = (mf_wm1 fr + 1) * (mf_hm1 fr + 1) * (if mf_has_alpha fr then 4 else 3).
 
 Definition valid_file (f : mfile) : Prop :=
-  1 <= m_w f /\ 1 <= m_h f /\ m_w f * m_h f * 4 < 4294967296 /\ length (m_bg_stored f) = 4%nat /\
+  1 <= m_w f /\ 1 <= m_h f /\ m_w f * m_h f * 4 < 18446744073709551616 /\ length (m_bg_stored f) = 4%nat /\
   m_frames f <> [] /\ Forall (valid_mframe (m_w f) (m_h f)) (m_frames f).
 
 Lemma group4_length : forall n l, length l = (4 * n)%nat -> length (group4 l) = n.
@@ -172,11 +172,11 @@ Proof.
   assert (Hc0 : exists a0,
      match acanvas st with
      | Some c => Ok c
-     | None => if m_w f * m_h f * 4 <? 4294967296 then Ok (new_canvas (m_w f * m_h f * 4) (background_color f)) else Panic POverflow
+     | None => if m_w f * m_h f * 4 <? 18446744073709551616 then Ok (new_canvas (m_w f * m_h f * 4) (background_color f)) else Err EImageTooLarge
      end = Ok a0 /\ crep (m_w f) (m_h f) a0 (fst S)).
   { unfold canvas_rel in Hcanvas. destruct (acanvas st) as [a|].
     - exists a. split; [reflexivity|exact Hcanvas].
-    - replace (m_w f * m_h f * 4 <? 4294967296) with true by (symmetry; apply Z.ltb_lt; exact HB).
+    - replace (m_w f * m_h f * 4 <? 18446744073709551616) with true by (symmetry; apply Z.ltb_lt; exact HB).
       eexists. split; [reflexivity|].
       eapply crep_ext; [apply new_canvas_crep; exact HF|]. intros x y Hx' Hy'. symmetry. apply Hcanvas; assumption. }
   destruct Hc0 as (a0 & Hc0 & Hrep0). rewrite Hc0. cbn [bind].
